@@ -46,16 +46,48 @@ func cf(h, n string) bool { return strings.Contains(strings.ToLower(h), strings.
 type keyDomain struct {
 	larger, smaller []int64
 	maxSeq, maxUID  int
+	heavy           bool // text-heavy key mix (see genKey)
 }
 
 var stubDomain = keyDomain{larger: []int64{1, 3, 5, 9}, smaller: []int64{1, 5, 7, 9, 11}, maxSeq: 200, maxUID: 2000}
+
+func quoteIfNeeded(v string) string {
+	if strings.ContainsAny(v, " :") {
+		return `"` + v + `"`
+	}
+	return v
+}
 
 func genKey(t *rapid.T, depth int, dom keyDomain) key {
 	max := 21
 	if depth > 0 {
 		max = 24
 	}
-	switch rapid.IntRange(0, max).Draw(t, "keykind") {
+	kind := rapid.IntRange(0, max+1).Draw(t, "keykind")
+	if dom.heavy {
+		// text-heavy mode: several BODY/TEXT/header keys at several levels of
+		// the NOT/OR tree of one command
+		pool := []int{15, 16, 17, 17, 17, max + 1, max + 1}
+		if depth > 0 {
+			pool = append(pool, 22, 22, 23, 23, 24)
+		}
+		kind = rapid.SampledFrom(pool).Draw(t, "heavykind")
+	}
+	if kind == max+1 {
+		v := rapid.SampledFrom([]string{"alpha", "gamma", "hello", "bye", "foo", "zzz", "subject: h", "x-a"}).Draw(t, "text")
+		return key{"TEXT " + quoteIfNeeded(v), func(m smodel.Msg) bool {
+			if cf(m.Body, v) {
+				return true
+			}
+			for k, hv := range m.Headers {
+				if cf(k+": "+hv, v) {
+					return true
+				}
+			}
+			return false
+		}}
+	}
+	switch kind {
 	case 0:
 		return key{"SEEN", hasFlag("\\seen")}
 	case 1:
@@ -275,9 +307,11 @@ func firstDiff(got, want []int) string {
 func TestPropSearchPermutations(t *testing.T) {
 	rapid.Check(t, func(t *rapid.T) {
 		n := rapid.SampledFrom([]int{1, 2, 2, 3, 3, 3, 4, 4, 5}).Draw(t, "nkeys")
+		dom := stubDomain
+		dom.heavy = rapid.IntRange(0, 5).Draw(t, "textheavy") == 0
 		var keys []key
 		for i := 0; i < n; i++ {
-			keys = append(keys, genKey(t, 1, stubDomain))
+			keys = append(keys, genKey(t, 1, dom))
 		}
 		perms, expectN := checkPermutations(t, keys)
 		ev.Eval()
